@@ -448,6 +448,10 @@ def frame_bodies(repo):
     s = re.sub(r'(?:\|?FrameType::H2_\w+)+=>Err\(FrameError::UnsupportedFrame\(ty\.0\)\),', 'H2ARMS,', s)
     s = s.replace('_=>{payload.advance(lenasusize);Err(', '_=>{Err(')
     b['Frame::decode'] = s
+    b['struct PayloadLen'] = squeeze(re.search(r'pub\s+struct\s+PayloadLen\s*\([^)]*\)\s*;', fr.text).group(0))
+    b['From<usize> for PayloadLen'] = _block(fr, r'impl\s+From<usize>\s+for\s+PayloadLen\s*\{')
+    # reached from the error arms of the request-stream code (`format!("{:?}", frame)`)
+    b['Debug for Frame<PayloadLen>'] = _block(fr, r'impl\s+fmt::Debug\s+for\s+Frame<PayloadLen>\s*\{')
     b['FrameType::decode'] = _fn_in(fr, r'(?m)^impl\s+FrameType\s*(?=\{\s*fn\s+decode)', 'decode')
     b['PushPromise::decode'] = _fn_in(fr, r'(?m)^impl\s+PushPromise\s*\{', 'decode')
     b['Settings::decode'] = re.sub(r'remaining\(\)<\d+', 'remaining()<#', _fn_in(fr, r'(?m)^impl\s+Settings\s*\{', 'decode'))
@@ -458,7 +462,7 @@ def frame_bodies(repo):
     b['FrameStream::new'] = squeeze(fs.fn_body('new')[0])
     b['FrameStream::into_inner'] = squeeze(fs.fn_body('into_inner')[0])
     s = squeeze(fs.fn_body('poll_next')[0])
-    s = re.sub(r'Poll::Ready\(true\)=>\{ifself\.stream\.buf_mut\(\)\.has_remaining\(\)\{Poll::Ready\(Err\(FrameStreamError::UnexpectedEnd\)\)\}else\{Poll::Ready\(Ok\(None\)\)\}\}', 'ENDARM', s)
+    s = re.sub(r'Poll::Ready\(true\)=>(?:\{ifself\.stream\.buf_mut\(\)\.has_remaining\(\)\{Poll::Ready\(Err\(FrameStreamError::UnexpectedEnd\)\)\}else\{Poll::Ready\(Ok\(None\)\)\}\}|Poll::Ready\(Ok\(None\)\),?)', 'ENDARM', s)
     b['poll_next'] = s
     s = squeeze(fs.fn_body('poll_data')[0])
     s = re.sub(r'\(None,true\)ifself\.remaining_data!=usize::MAX=>\{Poll::Ready\(Err\(FrameStreamError::UnexpectedEnd\)\)\}', '', s)
@@ -492,6 +496,8 @@ def frame_bodies(repo):
     b['handle_quic_stream_error'] = squeeze(ce.fn_body('handle_quic_stream_error')[0])
     b['handle_connection_error_on_stream'] = squeeze(ce.fn_body('handle_connection_error_on_stream')[0])
     b['control error arms'] = mask_codes(''.join(p + '=>' + a + ';' for p, a in control_error_arms(repo)))
+    # every pattern (with its guard) of that match, in order: an arm put in front of the anchored ones would shadow them
+    b['control arm patterns'] = ' ; '.join(control_arm_patterns(repo))
     return {k: no_trailing_commas(v) for k, v in b.items()}
 
 
@@ -502,6 +508,13 @@ def control_error_arms(repo):
     mb, _, _ = find_match_body(body, r'match\s+ready!\(recv\.poll_next\(cx\)\)\s*\{')
     arms = [(squeeze(p), squeeze(a)) for p, a in split_arms(mb)]
     return [(p, a) for p, a in arms if p.startswith('Err(FrameStreamError::')]
+
+
+def control_arm_patterns(repo):
+    cn = Source(repo + '/h3/src/connection.rs')
+    body, _ = cn.fn_body('poll_control')
+    mb, _, _ = find_match_body(body, r'match\s+ready!\(recv\.poll_next\(cx\)\)\s*\{')
+    return [squeeze(p) for p, a in split_arms(mb)]
 
 
 def control_facts(repo):
